@@ -41,5 +41,17 @@ theorem C14_old_stale_descendants :
 theorem C14_old_stale_newick :
     ∃ pr ∈ Heap.runHistory Heap.stepOld P17.h0 [.qNewick 0, .prune [2, 3], .qNewick 0], pr.1 ≠ pr.2 := P17.stale_newick_witness
 
+/-- **C14 (pruning leaves no cache behind).** After `prune` every surviving structure has empty
+descendant / Newick / ancestor caches and at most the trunk seeding `_level = 0` — for every heap,
+without hypotheses. -/
+theorem C14_prune_resets_all (h : Heap) (ms : List Nat) :
+    ∀ o ∈ (h.prune ms).objs, o.id ∈ (h.prune ms).alive →
+      o.desc = none ∧ o.nw = none ∧ o.anc = none ∧ (o.lvl = none ∨ (o.parent = none ∧ o.lvl = some 0)) :=
+  P29c.prune_resets_all h ms
+
+/-- **C14 (descendants are listed once).** -/
+theorem C14_descendants_nodup (h : Heap) (hwf : P17.WF h) (i : Nat) (hi : i ∈ h.alive) :
+    (∀ x ∈ h.specDesc h.size [i], x ∈ h.alive) ∧ (h.specDesc h.size [i]).Nodup := P29c.descendants_count h hwf i hi
+
 -- non-vacuity: the witness heap satisfies the hypotheses of the main theorem
 example : P17.WF P17.h0 ∧ P17.Sound P17.h0 := ⟨P17.h0_wf, P17.h0_sound⟩
